@@ -172,7 +172,7 @@ def d3(cx: Cx, ob: Ob) -> None:
                     if not all(formula_eval(g.a, asg) == g.b for g in gs):
                         continue
                     appended = any(ev.kind == "expr" and op(ev.a) == "call" and op(ev.a[1]) == "attr" and ev.a[1][2] == "append" and ev.a[1][1] == ("attr", me, "records") for ev in p.events)
-                    merged = any(ev.kind in ("expr", "bind") and self_call(ev.a if ev.kind == "expr" else ev.b, me, "_merge") for ev in p.events)
+                    merged = any((ev.kind in ("expr", "bind") and self_call(ev.a if ev.kind == "expr" else ev.b, me, "_merge")) or (ev.kind == "guard" and self_call(ev.a, me, "_merge")) for ev in p.events)
                     raised = p.out is not None and p.out[0] == "raise"
                     got = "raise" if raised else "merge" if merged else "append" if appended else "nothing"
                     if got == want or (want, got, n >= 2, mg) in seen_bad:
@@ -221,6 +221,91 @@ def d4(cx: Cx, ob: Ob) -> None:
     check_add_record_pairing(cx, ob)
 
 
+def _merge_takes_care(cx: Cx, ob: Ob, fn, path, me) -> bool:
+    """A path of add_record that merges but does not re-index is still right when
+
+    (A) it is the path on which ``_merge`` reported "nothing added" and the value ``_merge`` returns is true
+        whenever it added something to either synonym list, or
+    (B) ``_merge`` writes every name it adds into the lookup tables itself, with the values of the record it
+        merges INTO.
+
+    Returns True when the case was judged here (a violation may have been recorded)."""
+    mfn = cx.model.functions.get(f"{CONV}._merge")
+    if mfn is None:
+        return False
+    ms = cx.summary(mfn)
+    into = ("param", "into")
+    adds = []  # (field, added term, event, ctx)
+    for ev, ctx in ms.walk():
+        c = ev.a if ev.kind == "expr" else ev.b if ev.kind == "bind" else None
+        if op(c) == "call" and op(c[1]) == "attr" and c[1][2] in ("append", "extend") and op(c[1][1]) == "attr" and c[1][1][1] == into and c[2]:
+            adds.append((c[1][1][2], c[2][0], c[1][2], ev, ctx))
+    if not adds:
+        return False
+    merge_guard = [g for g in path.events if g.kind == "guard" and op(g.a) == "call" and self_call(g.a, me, "_merge")]
+    if merge_guard and merge_guard[0].b is False:
+        # (A) the result of _merge decides whether to re-index
+        leaves = set()
+
+        def split(t):
+            if op(t) == "bin" and t[1] == "|" or op(t) in ("or",):
+                for x in (t[2], t[3]) if op(t) == "bin" else t[1]:
+                    split(x)
+            elif op(t) == "call" and t[1] == ("builtin", "bool") and len(t[2]) == 1:
+                leaves.add(t[2][0])
+            elif op(t) == "truth":
+                leaves.add(t[1])
+            else:
+                leaves.add(t)
+
+        rets = [t for t, _ in ms.returns() if not is_const(t, None)]
+        if not rets:
+            ob.violate(fn.qualname, where(fn, merge_guard[0].line), "add_record re-indexes only when _merge returns a true value, but _merge returns nothing", detail="unindexed:merge")
+            return True
+        for t in rets:
+            split(t)
+        missing = sorted({f for f, added, how_, _, _ in adds if how_ != "extend" or added not in leaves})
+        if missing:
+            ob.violate(
+                fn.qualname,
+                where(fn, merge_guard[0].line),
+                f"add_record re-indexes the existing record only when _merge reports a change, but the value _merge returns does not reflect what it adds to {missing}: a merge that only brings such names extends the record and leaves the lookup tables behind",
+                witness="add_prefix('chebi', <the URI prefix CHEBI already has>, merge=True): 'chebi' becomes a synonym but never enters prefix_map",
+                detail="unindexed:merge",
+            )
+        else:
+            ob.site(f"{where(fn, merge_guard[0].line)} {fn.qualname}", "re-index iff _merge reports an addition (its result covers both synonym lists)")
+        return True
+    # (B) tables written inside _merge
+    mme = ("param", mfn.self_name) if mfn.self_name else None
+    if mme is None:
+        return False
+    stores = [(ev, ctx) for ev, ctx in ms.walk() if ev.kind == "store" and op(ev.a) == "item" and op(ev.a[1]) == "attr" and ev.a[1][1] == mme]
+    if not stores:
+        return False
+    need = {"prefix_synonyms": {"prefix_map": "uri_prefix", "synonym_to_prefix": "prefix"}, "uri_prefix_synonyms": {"reverse_prefix_map": "prefix", "trie": "prefix"}}
+    for f, added, how_, ev, ctx in adds:
+        if how_ != "append":
+            ob.undecide(f"_merge indexes inline but adds to {f} with .{how_}()")
+            continue
+        for table, vfield in need.get(f, {}).items():
+            hits = [(se, sc) for se, sc in stores if se.a[1][2] == table and se.a[2] == added and sc.path is ctx.path]
+            if not hits:
+                ob.violate(fn.qualname, where(mfn, ev.line), f"add_record relies on _merge to index what it adds, but _merge does not write the name it appends to into.{f} into `{table}`", detail="unindexed:merge")
+                continue
+            for se, _ in hits:
+                if se.b != ("attr", into, vfield):
+                    ob.violate(
+                        fn.qualname,
+                        where(mfn, se.line),
+                        f"_merge indexes the name it adds to into.{f} with `{show(se.b)[:40]}` instead of into.{vfield}: `{table}` answers with the incoming record's value for a name that now belongs to the existing record",
+                        witness="after merging chebi (other URI prefix) into CHEBI, expand('chebi:1') uses the incoming record's URI prefix",
+                        detail="unindexed:merge",
+                    )
+    ob.site(f"{mfn.where} {mfn.qualname}", "names are indexed as they are merged")
+    return True
+
+
 def check_add_record_pairing(cx: Cx, ob: Ob) -> None:
     fn = cx.fn(f"{CONV}.add_record", ob.id)
     s = cx.summary(fn, ob.id)
@@ -256,6 +341,8 @@ def check_add_record_pairing(cx: Cx, ob: Ob) -> None:
             normal = p.out is None or p.out[0] == "return"
             for rec, line, how, done in changed:
                 ob.site(f"{where(fn, line)} {fn.qualname}", f"{how} -> _index")
+                if not done and normal and how == "merge" and _merge_takes_care(cx, ob, fn, p, me):
+                    continue
                 if not done and normal:
                     conds = [("" if g.b else "not ") + show(g.a)[:60] for g in p.events if g.kind == "guard"]
                     ob.violate(
@@ -323,6 +410,18 @@ def check_merge(cx: Cx, ob: Ob) -> None:
             continue
         ob.site(f"{where(fn, ev.line)} {fn.qualname}", f"into.{lst}.{m}(...)")
         val = c[2][-1]
+        comp_guards = []
+        if m == "extend":
+            # extend(<values of SRC that pass a filter>): judged like the loop `for v in SRC: if filter: append(v)`
+            x = val[4] if op(val) == "new" and len(val) > 4 else val
+            if op(x) == "comp" and x[1] in ("list", "gen") and len(x[3]) == 1 and x[2] == x[3][0][0]:
+                v_, src, ifs = x[3][0]
+                while op(src) == "call" and ((src[1] == ("attr", ("builtin", "dict"), "fromkeys") and len(src[2]) == 1) or (src[1] in (("builtin", "list"), ("builtin", "tuple"), ("builtin", "sorted"), ("builtin", "set")) and len(src[2]) == 1)):
+                    src = src[2][0]
+                prov.add_binding(v_, src)
+                val = v_
+                m = "append"
+                comp_guards = [(cnd, True) for cnd in ifs]
         fs = prov.fields(val) if m != "extend" else _container_fields(prov, val)
         for rr, f in fs:
             if rr == rec:
@@ -336,7 +435,9 @@ def check_merge(cx: Cx, ob: Ob) -> None:
         # guard: membership in the full cover of `into`
         cover = set()
         unknown_guard = False
-        for g in ctx.guards:
+        from types import SimpleNamespace as _NS
+
+        for g in list(ctx.guards) + [_NS(kind="guard", a=a_, b=b_) for a_, b_ in comp_guards]:
             if g.kind != "guard":
                 continue
             atoms = []
